@@ -71,6 +71,23 @@ def run(c, index, tier):
 
     est = spec.build(cfg)
     args, kw = spec.fit_args(data, cfg)
+    if ch.boolean("w", 0.2, "copied-before"):
+        # the same object was fitted on other data and copied once before: the
+        # copies taken later are copies of the model as it is then
+        Z = spec.data(ch, "Z")
+        zargs, zkw = spec.fit_args(Z, cfg)
+        env()
+        okz, _ = U.sut(c, "fit(before)", est.fit, *zargs, **zkw)
+        if okz:
+            try:
+                c.log.ev("op", "clone_with_fitted_parameters(before)")
+                kept_copy = clone_with_fitted_parameters(est)  # noqa: F841 -- stays alive
+                pickle.dumps(est)
+            except (C.StepCapExceeded, C.HarnessError):
+                raise
+            except Exception:  # noqa: BLE001
+                pass
+            c.probe("copied_before_the_last_fit")
     env()
     ok, r = U.sut(c, "fit", est.fit, *args, **kw)
     if not ok:
